@@ -655,61 +655,36 @@ def _io_harness(ctx, module):
             raise anchor_error('class %s not found' % q, q)
         cls[q.rsplit('.', 1)[1]] = absint.classref(ctx, q, fn)
 
-    def coords(kind, names):
-        class C(orders.PyStub):
-            isa = (kind,)
-
-            def __init__(self, a, b, c=0.0):
-                for k_, v_ in zip(names, (a, b, c)):
-                    setattr(self, k_, v_)
-
-            def getX(self):
-                return getattr(self, names[0])
-
-            def getY(self):
-                return getattr(self, names[1])
-
-            def getZ(self):
-                return getattr(self, names[2])
-
-            def setX(self, v):
-                setattr(self, names[0], v)
-
-            def setY(self, v):
-                setattr(self, names[1], v)
-
-            def setZ(self, v):
-                setattr(self, names[2], v)
-
-            def copy(self):
-                return C(self.getX(), self.getY(), self.getZ())
-
-            def __str__(self):
-                return '[%s=%.3f, %s=%.3f, %s=%.3f]' % (names[0], self.getX(), names[1], self.getY(), names[2], self.getZ())
-        C.__name__ = C.__qualname__ = kind
-        return C
-    kinds = {'ENU': coords('ENUCoords', ('E', 'N', 'U')), 'GEO': coords('GeoCoords', ('lon', 'lat', 'hgt')), 'ECEF': coords('ECEFCoords', ('X', 'Y', 'Z'))}
-    for c in kinds.values():
-        fn[c.__name__] = c
-        fn['__globals__'][c.__name__] = c
+    # positions are the repository's own ENUCoords / GeoCoords / ECEFCoords objects (what the readers construct and the writers read)
+    kinds = {'ENU': absint.classref(ctx, 'tracklib.core.obs_coords.ENUCoords', fn), 'GEO': absint.classref(ctx, 'tracklib.core.obs_coords.GeoCoords', fn),
+             'ECEF': absint.classref(ctx, 'tracklib.core.obs_coords.ECEFCoords', fn)}
+    import math as _math
+    fn.setdefault('sqrt', _math.sqrt)
 
     # (makeCoords is the repository's own function, interpreted: the readers build their positions through it)
 
-    class O(orders.PyStub):
-        isa = ('Obs',)
-
-        def __init__(self, position, timestamp=None):
-            self.position = position
-            self.timestamp = timestamp if timestamp is not None else cls['ObsTime']()
-            self.features = []
-
-        def copy(self):
-            o = O(self.position.copy(), absint.deep_copy(self.timestamp))
-            o.features = list(self.features)
-            return o
-    fn['Obs'] = O
-    fn['__globals__']['Obs'] = O
+    def O(position, timestamp=None):
+        return absint.real_obs(ctx, fn, position, timestamp)          # the repository's own Obs
     return fn, vfs, cls, kinds, O
+
+
+def _xyz(p):
+    """(x, y, z) of a position object of the repository (through its own getters)"""
+    if isinstance(p, orders.Obj) and 'getX' in p.methods:
+        return (p.call('getX'), p.call('getY'), p.call('getZ'))
+    if isinstance(p, orders.PyStub) and hasattr(p, 'getX'):
+        return (p.getX(), p.getY(), p.getZ())
+    return (None, None, None)
+
+
+def _pos(o):
+    if isinstance(o, orders.Obj):
+        return o.fields.get('position')
+    return getattr(o, 'position', None)
+
+
+def _kind_of(p):
+    return getattr(p, 'clsname', None) if isinstance(p, orders.Obj) else None
 
 
 def rule_R(ctx):
@@ -781,14 +756,14 @@ def rule_R(ctx):
             found.setdefault('count', ('the track read back has the same number of observations in the same order', dict(case, **{'written': len(stamps), 'read': None if pts is None else len(pts), 'file': vfs.files.get(path, '')[:400]})))
             continue
         for k, (o, v, st) in enumerate(zip(pts, values[srid], stamps)):
-            got = (o.position.getX(), o.position.getY(), o.position.getZ())
+            got = _xyz(_pos(o))
             want = (v[0], v[1], v[2] if lay['id_U'] != -1 else 0.0)
-            if not isinstance(o.position, kinds[srid]) or any(not isinstance(g_, (int, float)) or abs(g_ - w_) > tol[srid] for g_, w_ in zip(got, want)):
+            if _kind_of(_pos(o)) != {'ENU': 'ENUCoords', 'GEO': 'GeoCoords', 'ECEF': 'ECEFCoords'}[srid] or any(not isinstance(g_, (int, float)) or abs(g_ - w_) > tol[srid] for g_, w_ in zip(got, want)):
                 found.setdefault('coords', ('coordinates read back equal the written ones to the written precision (1 mm metric, 1e-8 degree geographic), in the same coordinate system',
                                             dict(case, observation=k, written=list(want), read=[g_ for g_ in got], **{'line of the file': vfs.files.get(path, '').split('\n')[k + (4 if h else 0)] if h == 0 else vfs.files.get(path, '')[:300]})))
                 break
             if lay['id_T'] != -1:
-                ts = o.timestamp
+                ts = o.fields.get('timestamp') if isinstance(o, orders.Obj) else None
                 gt = tuple(ts.fields.get(f_) for f_ in ('year', 'month', 'day', 'hour', 'min', 'sec')) if isinstance(ts, orders.Obj) else None
                 if gt != st[:6]:
                     found.setdefault('time', ('timestamps read back are identical to the second', dict(case, observation=k, written=list(st[:6]), read=list(gt) if gt else repr(ts), file=vfs.files.get(path, '')[:300])))
@@ -801,7 +776,7 @@ def rule_R(ctx):
         fmt = TF({'ext': 'CSV', 'srid': 'ENU', 'id_E': 0, 'id_N': 1, 'id_U': 2, 'id_T': 3, 'separator': ' ', 'header': 0})
         back = TR.readFromFile('/out/blank.csv', fmt)
         pts = back.fields.get('_Track__POINTS') if isinstance(back, orders.Obj) else None
-        gt = [tuple(o.timestamp.fields.get(f_) for f_ in ('year', 'month', 'day', 'hour', 'min', 'sec')) for o in pts] if pts else None
+        gt = [tuple(o.fields['timestamp'].fields.get(f_) for f_ in ('year', 'month', 'day', 'hour', 'min', 'sec')) for o in pts] if pts else None
         if gt != [st[:6] for st in stamps]:
             found['sep-clash: '] = ('a file written with the documented blank separator is read back with its timestamps',
                                     {'separator': ' ', 'first line written': vfs.files.get('/out/blank.csv', '').split('\n')[0], 'timestamps written': [list(st[:6]) for st in stamps][:2],
@@ -846,11 +821,11 @@ def rule_X(ctx):
             found.setdefault('gpx-count', ('a GPX file read back gives the same number of observations in the same order', dict(case, what=what, written=len(pts), read=None if obs is None else len(obs))))
             return
         for k, (o, p_, st) in enumerate(zip(obs, pts, stamps)):
-            got = (o.position.getX(), o.position.getY(), o.position.getZ())
+            got = _xyz(_pos(o))
             if any(not isinstance(g_, (int, float)) or abs(g_ - w_) > 1.001e-8 for g_, w_ in zip(got, p_)):
                 found.setdefault('gpx-coords', ('longitude, latitude and height read back equal the written ones (1e-8 degree)', dict(case, what=what, observation=k, written=list(p_), read=list(got))))
                 return
-            ts = o.timestamp
+            ts = o.fields.get('timestamp') if isinstance(o, orders.Obj) else None
             gt = tuple(ts.fields.get(f_) for f_ in ('year', 'month', 'day', 'hour', 'min', 'sec')) if isinstance(ts, orders.Obj) else None
             if gt != st[:6]:
                 found.setdefault('gpx-time', ('timestamps read back from GPX are identical to the second', dict(case, what=what, observation=k, written=list(st[:6]), read=list(gt) if gt else repr(ts))))
@@ -950,7 +925,7 @@ def rule_X(ctx):
         for eid, u, v, ori, g in edges:
             e2 = E2[eid]
             got = {'source': e2.fields['source'].fields['id'], 'target': e2.fields['target'].fields['id'], 'orientation': e2.fields['orientation'],
-                   'geometry': [(o.position.getX(), o.position.getY()) for o in e2.fields['geom'].fields['_Track__POINTS']]}
+                   'geometry': [_xyz(_pos(o))[:2] for o in e2.fields['geom'].fields['_Track__POINTS']]}
             want = {'source': u, 'target': v, 'orientation': ori, 'geometry': [tuple(xy) for xy in g]}
             if got != want:
                 found.setdefault('net-edge', ('every edge read back has the same end nodes, orientation and geometry', dict(case, edge=eid, written=want, read=got)))
@@ -960,7 +935,7 @@ def rule_X(ctx):
         for eid, u, v, ori, g in edges:
             want_nodes.setdefault(u, tuple(g[0]))
             want_nodes.setdefault(v, tuple(g[-1]))
-        got_nodes = {k_: (n_.fields['coord'].getX(), n_.fields['coord'].getY()) for k_, n_ in nd.items()} if isinstance(nd, dict) else None
+        got_nodes = {k_: _xyz(n_.fields['coord'])[:2] for k_, n_ in nd.items()} if isinstance(nd, dict) else None
         if got_nodes != want_nodes:
             found.setdefault('net-nodes', ('the network read back has the same nodes, at the same places (the ends of the edge geometries)', dict(case, written=want_nodes, read=got_nodes)))
     # ---- WKT text of a track: ENU and geographic coordinates, held as Python floats, Python ints and numpy scalars
@@ -974,7 +949,7 @@ def rule_X(ctx):
             txt = t.call('toWKT')
             back = TR.parseWkt(txt)
             obs = back.fields.get('_Track__POINTS') if isinstance(back, orders.Obj) else None
-            got = [(o.position.getX(), o.position.getY()) for o in obs] if obs else None
+            got = [_xyz(_pos(o))[:2] for o in obs] if obs else None
             if got != [(float(x), float(y)) for x, y in pts_]:
                 found.setdefault('wkt', ('a track exported as WKT text and parsed back has the same planimetric coordinates', dict(case, text=txt, read=got)))
         except orders.Unsupported as ex:
